@@ -59,6 +59,7 @@ func layoutDims(l pdfw.Layout, o pdfw.DocOpts, revs int) map[string]string {
 		"depth": fmt.Sprint(o.TreeDepth), "inherit": o.Inherit, "override": fmt.Sprint(o.Override), "revs": fmt.Sprint(revs),
 		"xrefpred": fmt.Sprint(l.XRefPredictor), "extends": fmt.Sprint(l.ObjStmExtends && l.ObjStm != "none"),
 		"comments": fmt.Sprint(l.Comments), "quotes": fmt.Sprint(l.Quotes), "tjkern": fmt.Sprint(l.TJKern), "forms": fmt.Sprint(l.Forms), "boxind": fmt.Sprint(l.BoxIndirect),
+		"fontrot": fmt.Sprint(l.FontNameRot), "fontsdirect": fmt.Sprint(l.FontsDirect), "inlineimg": fmt.Sprint(l.InlineImages),
 	}
 }
 
@@ -80,7 +81,7 @@ func makeCase(c *fw.Ctx, id string) *Case {
 	case "dim":
 		// vary exactly one dimension away from the baseline
 		full := pdfw.RandomLayout(r, 1)
-		dims := []string{"eol", "tight", "xref", "objstm", "len", "filter", "split", "splitnows", "big", "numbering", "shuffle", "resind", "depth", "inherit", "override", "revs", "contarr", "xrefpred", "extends", "comments", "quotes", "tjkern", "forms", "boxind"}
+		dims := []string{"eol", "tight", "xref", "objstm", "len", "filter", "split", "splitnows", "big", "numbering", "shuffle", "resind", "depth", "inherit", "override", "revs", "contarr", "xrefpred", "extends", "comments", "quotes", "tjkern", "forms", "boxind", "fontrot", "fontsdirect", "inlineimg", "formrot"}
 		switch d := dims[idx%len(dims)]; d {
 		case "eol":
 			cs.Lay.EOL = []string{"\r\n", "\r"}[r.Intn(2)]
@@ -147,6 +148,19 @@ func makeCase(c *fw.Ctx, id string) *Case {
 		case "forms":
 			cs.Lay.Forms = true
 			cs.Opts.MaxLines = 8
+		case "fontrot":
+			cs.Lay.FontNameRot = true
+			cs.Opts.TreeDepth = 2
+			cs.Opts.Inherit = "mixed"
+		case "formrot":
+			cs.Lay.FontNameRot = true
+			cs.Lay.Forms = true
+			cs.Opts.Inherit = []string{"leaf", "parent", "root"}[r.Intn(3)]
+			cs.Opts.TreeDepth = 2
+		case "fontsdirect":
+			cs.Lay.FontsDirect = true
+		case "inlineimg":
+			cs.Lay.InlineImages = true
 		case "extends":
 			cs.Lay.XRef = []string{"stream"}
 			cs.Lay.ObjStm = "all"
@@ -282,10 +296,12 @@ func observe(c *fw.Ctx, cs *Case, path string) []failure {
 		} else {
 			// the font dictionary must be the nearest one: check F1's tag
 			own := lf.ResourcesOwner()
-			wantTag := final.Doc.Fonts[0].Tag
-			if own.DecoyFonts && len(final.Doc.Fonts) > 1 {
-				wantTag = final.Doc.Fonts[1%len(final.Doc.Fonts)].Tag
+			nf := len(final.Doc.Fonts)
+			wi := cs.Lay.NameRot(own.ID, nf) // which font this owner's dictionary calls F1
+			if own.DecoyFonts && nf > 1 {
+				wi = (wi + 1) % nf
 			}
+			wantTag := final.Doc.Fonts[wi].Tag
 			if tag, ok := fontTag(rd, res, "F1"); ok && tag != wantTag {
 				add("resources", "page %d: Resources() is not the nearest definition (F1 tag %s, want %s)", i+1, tag, wantTag)
 			}
